@@ -8,8 +8,8 @@
 (*         res, the byte at index 0 has difference diff; each difference d  *)
 (*         is realised as (max(d,0)+k, max(-d,0)+k) for the offsets k in    *)
 (*         Offsets (clipped so that both bytes stay <= 255).                *)
-(* The expected values are the property's (LexCmp / equality); the row is   *)
-(* only printed if the bit-level functions of Memsec agree with them.       *)
+(* The expected values are the property's (LexCmp / equality); that the     *)
+(* bit-level functions of Memsec agree with them is MCMemsec's business.    *)
 EXTENDS Memsec, TLC, Json, FiniteSets
 CONSTANTS Offsets
 GenInputs == { <<<<0>>, <<0>>>> }     \* the state machine is not used here; keep it tiny
@@ -20,18 +20,14 @@ Min(x, y) == IF x < y THEN x ELSE y
 Realise(d, k) == LET kk == Min(k, 255 - Abs(d)) IN <<Max(d, 0) + kk, Max(-d, 0) + kk>>
 
 Vec(x, y) == <<x, y, LexCmp(x, y), x = y>>
-Agree(x, y) == Memcmp(x, y) = LexCmp(x, y) /\ Memeq(x, y) = (x = y)
-
-Len1Row(x) == [k |-> "len1", pairs |-> [y \in 1..256 |-> Vec(<<x>>, <<y - 1>>)]]
+\* rows are built over bound variables (concrete values), pairs as a set
+Len1Row(x) == [k |-> "len1", pairs |-> { Vec(<<x>>, <<y>>) : y \in Byte }]
 Len2Row(res, k) ==
-    LET lo == Realise(res, k)
-    IN  [k |-> "len2", res |-> res, off |-> k,
-         pairs |-> [j \in 1..511 |->
-                      LET hi == Realise(j - 256, k)
-                      IN  Vec(<<hi[1], lo[1]>>, <<hi[2], lo[2]>>)]]
+    [k |-> "len2", res |-> res, off |-> k,
+     pairs |-> { Vec(<<hi[1], lo[1]>>, <<hi[2], lo[2]>>) :
+                   hi \in { Realise(d, k) : d \in Diff }, lo \in { Realise(res, k) } }]
 
-RowOK(row) == \A j \in DOMAIN row.pairs : Agree(row.pairs[j][1], row.pairs[j][2])
-Emit(row) == RowOK(row) /\ PrintT(<<"VEC", ToJson(row)>>)
+Emit(row) == PrintT(<<"VEC", ToJson(row)>>)
 
 ASSUME \A x \in Byte : Emit(Len1Row(x))
 ASSUME \A k \in Offsets : \A res \in Diff : Emit(Len2Row(res, k))
